@@ -12,4 +12,5 @@ let lookup (p : string) : Model.val0 -> Model.val0 =
   | "C15" -> Model.run_C15
   | "C18" -> Model.run_C18
   | "C16" -> Model.run_C16
+  | "C12" -> Model.run_C12
   | _ -> failwith ("unknown property " ^ p)
